@@ -1033,10 +1033,11 @@ class Normaliser(object):
 
     def run(self):
         if self.inline_only:
-            self._defs_to_lambdas = self._ifs_to_conditional_expressions = self._outline = self._merge_conditional_calls = self._split_parallel_assignments = lambda: None
+            self._defs_to_lambdas = self._ifs_to_conditional_expressions = self._outline = self._merge_conditional_calls = self._split_parallel_assignments = self._for_else_to_early_exit = lambda: None
         self._defs_to_lambdas()
         if not self.helpers:
             self._split_parallel_assignments()
+            self._for_else_to_early_exit()
             self._ifs_to_conditional_expressions()
             self._merge_conditional_calls()
             self._outline()
@@ -1057,6 +1058,7 @@ class Normaliser(object):
         self._drop_unused()
         self._propagate_temporaries()
         self._split_parallel_assignments()
+        self._for_else_to_early_exit()
         self._ifs_to_conditional_expressions()
         self._merge_conditional_calls()
         self._outline()
@@ -1094,6 +1096,73 @@ class Normaliser(object):
         for t in self.trees.values():
             for fn in [n for n in ast.walk(t) if isinstance(n, ast.FunctionDef)]:
                 fn.body = rewrite(fn.body)
+
+    def _for_else_to_early_exit(self):
+        """`for ..: .. break ..  else: E` followed by AFTER, where E always returns / raises and AFTER (a few simple statements) always
+        returns / raises: AFTER runs exactly when the loop was left by `break`, so each such `break` becomes AFTER and E follows the loop"""
+        norm_ = self
+
+        def own_breaks(loop):
+            out = []
+
+            def go(stmts):
+                for s_ in stmts:
+                    if isinstance(s_, ast.Break):
+                        out.append(s_)
+                    elif isinstance(s_, (ast.For, ast.While, ast.FunctionDef, ast.AsyncFunctionDef, ast.ClassDef)):
+                        continue
+                    else:
+                        for fld in ('body', 'orelse', 'finalbody'):
+                            b = getattr(s_, fld, None)
+                            if isinstance(b, list):
+                                go(b)
+                        for h in getattr(s_, 'handlers', []) or []:
+                            go(h.body)
+            go(loop.body)
+            return out
+
+        def replace_breaks(stmts, after):
+            out = []
+            for s_ in stmts:
+                if isinstance(s_, ast.Break):
+                    out.extend(copy.deepcopy(a) for a in after)
+                    continue
+                if not isinstance(s_, (ast.For, ast.While, ast.FunctionDef, ast.AsyncFunctionDef, ast.ClassDef)):
+                    for fld in ('body', 'orelse', 'finalbody'):
+                        b = getattr(s_, fld, None)
+                        if isinstance(b, list) and b and isinstance(b[0], ast.stmt):
+                            setattr(s_, fld, replace_breaks(b, after))
+                    for h in getattr(s_, 'handlers', []) or []:
+                        h.body = replace_breaks(h.body, after)
+                out.append(s_)
+            return out
+
+        def rewrite(stmts):
+            for i, s_ in enumerate(stmts):
+                for fld in ('body', 'orelse', 'finalbody'):
+                    b = getattr(s_, fld, None)
+                    if isinstance(b, list) and b and isinstance(b[0], ast.stmt) and not isinstance(s_, (ast.FunctionDef, ast.ClassDef)):
+                        rewrite(b)
+                for h in getattr(s_, 'handlers', []) or []:
+                    rewrite(h.body)
+                if isinstance(s_, (ast.For, ast.While)) and s_.orelse and _terminates(s_.orelse):
+                    after = stmts[i + 1:]
+                    simple = all(isinstance(a, (ast.Return, ast.Raise, ast.Expr, ast.Assign)) for a in after)
+                    in_finally = any(isinstance(t, ast.Try) and t.finalbody and any(isinstance(x, ast.Break) for f_ in t.finalbody for x in ast.walk(f_))
+                                     for t in ast.walk(s_))
+                    small_else = len(s_.orelse) <= 3 and all(isinstance(a, (ast.Return, ast.Raise, ast.Expr, ast.Assign)) for a in s_.orelse)
+                    if after and len(after) <= 2 and simple and small_else and _terminates(after) and own_breaks(s_) and not in_finally:
+                        s_.body = replace_breaks(s_.body, after)
+                        tail = s_.orelse
+                        s_.orelse = []
+                        stmts[i + 1:] = tail
+                        norm_.inlined.append(('for/else', '', 'to-early-exit'))
+                        return rewrite(stmts)
+            return stmts
+        for t in self.trees.values():
+            for fn in [n for n in ast.walk(t) if isinstance(n, ast.FunctionDef)]:
+                if any(isinstance(x, (ast.For, ast.While)) and x.orelse for x in ast.walk(fn)):
+                    rewrite(fn.body)
 
     def _merge_conditional_calls(self):
         """`f(args) if c else g(args)` (same argument expressions) -> `(f if c else g)(args)`: test, callee, arguments are evaluated in
